@@ -268,7 +268,13 @@ def compile_repeat(run, ctx):
     if fn is None:
         return
     w = H.where(fn)
-    ps = [p.get("name") for p in fn["params"]]
+    ps = []
+    for p_ in fn["params"]:
+        if p_.get("k") == "Binding":
+            ps.append(p_.get("name"))
+        else:
+            # a tuple parameter `(lo, hi): (usize, usize)` is two parameters
+            ps += [q.get("name") for q in H.walk(p_) if q.get("k") == "Binding"]
     if len(ps) != 6:
         run.violation(fam, label, "anchor-missing/params", w, "anchor-missing: compile_repeat(self, info, lo, hi, greedy, hard)")
         return
@@ -1031,10 +1037,11 @@ def compile_alt(run, ctx):
               "let {hn} = ({i} < (%s - 1));" % COUNT, "let {hn} = ((1 + {i}) != %s);" % COUNT], "has-next", "every alternative except the last needs a fallback")
     HN = m.group("hn") if m else "has_next"
     need("let {pc} = self.b.pc(); if %s {self.b.add(Insn::Split((1 + {pc}),MAX))};" % HN, "split", "a non-last alternative starts with Split(next instruction, <patched later>)")
-    need("if (MAX != {last}) {self.b.set_split_target({last},{pc},true)}; {last} = {pc};", "chain", "the previous alternative's Split falls back (second operand) to the start of this alternative")
+    need(["if (MAX != {last}) {self.b.set_split_target({last},{pc},true)}; {last} = {pc};",
+          "if let Some({prev}) = {last} {self.b.set_split_target({prev},{pc},true)}; {last} = Some({pc});"], "chain", "the previous alternative's Split falls back (second operand) to the start of this alternative")
     need("%s(self,{i})?; if %s {let {p2} = self.b.pc(); {jmps}.push({p2}); self.b.add(Insn::Jmp(0))}" % (HANDLE, HN), "jump", "after a non-last alternative a Jmp (patched to the end) skips the remaining alternatives")
     need("let {np} = self.b.pc(); for {j} in {jmps} {self.b.set_jmp_target({j},{np})}; Ok(())", "join", "all jumps are patched to the first instruction after the alternation")
-    need("let {last} = MAX;", "last-init", "no Split is patched before the first alternative")
+    need(["let {last} = MAX;", "let {last} = None;"], "last-init", "no Split is patched before the first alternative")
     run.ok(fam, label, w, n, "Split(+1, next alternative) ... Jmp(end) chain in index order")
 
 
@@ -1058,7 +1065,10 @@ def literal_fast_path(run, ctx):
                 m = re.search(r"casei:(\w+)", pat)
                 ci = m.group(1) if m else None
                 tr = [ev.b for ev in p.events if ev.kind == "cond" and ev.a == ci]
-                good = ci is not None and (v == "!%s" % ci or (tr and v == ("false" if tr[-1] else "true")))
+                if ci in ("true", "false"):
+                    good = v == ("false" if ci == "true" else "true")      # the flag is fixed by the pattern
+                else:
+                    good = ci is not None and (v == "!%s" % ci or (tr and v == ("false" if tr[-1] else "true")))
                 if not good:
                     badl = "a literal is byte-comparable exactly when it is case-sensitive (found %s)" % v
                 okl["lit"] += 1
